@@ -106,8 +106,10 @@ def judge(c, rec):
     key = "%s/%s" % (fam, c["shape"])
     if n1 < 300 or n2 < 300:
         rec.violation(key + "/too-few-predictions", c, "%d / %d days predicted" % (n1, n2))
+    split_tag = "/split-selected" if "__" in str(getattr(m, "best_combination", "")) else ""
+
     def band(e):
-        return "5-25%" if e <= 0.25 else ">25%"
+        return ("5-40%" if e <= 0.40 else ">40%") + split_tag
 
     if not (e1 <= 0.05):
         rec.violation(key + "/baseline-nrmse-" + band(e1), c, "NRMSE on the baseline year %.4f of mean usage (limit 0.05); selected %s" % (e1, getattr(m, "best_combination", "?")))
